@@ -4,6 +4,7 @@ import OsmoVerif.Model.DrvNum
 import OsmoVerif.Model.DrvMath
 import OsmoVerif.Model.DrvMint
 import OsmoVerif.Model.DrvCL
+import OsmoVerif.Model.DrvCLPool
 import OsmoVerif.Model.DrvSumTree
 import OsmoVerif.Model.DrvEpochs
 import OsmoVerif.Model.DrvAccum
@@ -12,6 +13,7 @@ open OsmoVerif
 
 structure St where
   mint : Mint.DrvState := Mint.initMint
+  clp : CLPool.Pool := CLPool.initCLPool
   sumtree : SumTree.Store := SumTree.initSumTree
   epochs : Epochs.State := Epochs.initEpochs
   accum : Accum.AccumState := Accum.initAccum
@@ -27,6 +29,7 @@ def step (st : St) (line : String) : St × String :=
     ({ st with sumtree := r.1 }, r.2)
   | "epochs" :: op :: args => let (e, o) := Epochs.stepEpochs st.epochs op args; ({ st with epochs := e }, o)
   | "accum" :: op :: args => let (a, o) := Accum.stepAccum st.accum op args; ({ st with accum := a }, o)
+  | "clp" :: op :: args => let (c, o) := CLPool.stepCLPool st.clp op args; ({ st with clp := c }, o)
   | "mint" :: op :: args => let (m, o) := Mint.stepMint st.mint op args; ({ st with mint := m }, o)
   | _ => (st, "bad-op")
 
